@@ -407,6 +407,13 @@ static void op_link(const Op* op) {
   int dst = pick_obj(op->a[1], 0); if (dst < 0) return;
   Obj* s = &O[src]; var d = O[dst].ptr;
   int64_t a = op->a[2]; uint64_t ua = (uint64_t)(a < 0 ? -a : a);
+  /* known finding (see known_findings.jsonl): a cycle made only of unregistered Tuples (new_raw, or allocated while the
+   * collector was stopped) cannot be marked, so a collection that reaches it never terminates; steered around by default */
+  if (s->kind == HK_TUP && O[dst].kind == HK_TUP && !s->registered && !O[dst].registered && !(g_avoid & 16)) return;
+  /* an unregistered Tuple is invisible to the collector, so a managed object it names may be collected and the item dangle;
+   * Tuple items are traced precisely (dereferenced), so the program must not let that happen: such Tuples only name
+   * objects the collector never reclaims */
+  if (s->kind == HK_TUP && !s->registered && O[dst].cls == CL_MANAGED) return;
   if (s->kind == HK_NODE) { int f = (int)(ua % 3); ((struct Node*)s->ptr)->f[f] = d; s->e[f] = dst; stat_add("heap.link_field", 1); return; }
   if (s->kind == HK_REF) { ref(s->ptr, d); s->e[0] = dst; return; }
   if (s->cidx < 0) return;
